@@ -925,6 +925,16 @@ func (ce *cenv) evalCall(e *CExpr) cvar {
 		return cvar{v: mkSelect(ce.st.H("ghost:"+e.Name+":"+e.Args[0].String(), arraySort(sortInt, sortInt)), x.toTerm(v.v, v.t)), t: mathInt}
 	case "cfbenc", "cfbdec", "bytesmatch":
 		return ce.evalCrypto(e)
+	case "oncedone":
+		// oncedone(x.onceField): the sync.Once is known to have fired
+		argn(1)
+		pv := ce.addrOf(e.Args[0])
+		if pv == nil || pv.Base != PObj || len(pv.Path) != 1 {
+			ce.fail("oncedone(obj.onceField)")
+		}
+		sty := structOf(pv.BTyp)
+		hn := "ghost:once:" + x.env.te.namedKey(pv.BTyp) + "." + sty.Field(pv.Path[0].Field).Name()
+		return cvar{v: mkSelect(ce.st.H(hn, arraySort(sortInt, sortBool)), pv.Ref), t: types.Typ[types.Bool]}
 	case "each":
 		// each(i, lo, hi, body): finite conjunction over lo <= i < hi (bounds must be concrete:
 		// instantiated units)
